@@ -128,12 +128,27 @@ def sweep(names):
         meta = json.load(open(os.path.join(d, "meta.json")))
         prop = meta["property"]
         rc, o = sh("git -C /repo apply --check %s" % patch)
+        ported = False
         if rc != 0:
-            results[name] = {"property": prop, "repo_head": head.strip(), "result": "does-not-apply",
-                             "detail": "the patch no longer applies to the repaired tree (see meta.json for its disposition)"}
-            print(name, "does not apply")
-            continue
-        sh("git -C /repo apply %s" % patch)
+            # the tree has moved on since the change was written (repairs next to it): try a three-way merge with the
+            # blobs the patch names; a conflict means the change really no longer applies
+            rc3, o3 = sh("git -C /repo apply -3 %s" % patch)
+            if rc3 != 0 or "<<<<<<<" in sh("git -C /repo diff")[1]:
+                sh("git -C /repo reset -q --hard HEAD")
+                results[name] = {"property": prop, "repo_head": head.strip(), "result": "does-not-apply",
+                                 "detail": "the patch no longer applies to the repaired tree (see meta.json for its disposition)"}
+                print(name, "does not apply")
+                continue
+            rcb, ob = sh("cd /repo && GOFLAGS=-mod=mod GOPROXY=off go build ./... 2>&1 | tail -3")
+            if "rror" in ob or "cannot" in ob:
+                sh("git -C /repo reset -q --hard HEAD")
+                results[name] = {"property": prop, "repo_head": head.strip(), "result": "does-not-apply",
+                                 "detail": "merged three-way but no longer builds on the repaired tree"}
+                print(name, "does not apply (merged, does not build)")
+                continue
+            ported = True
+        else:
+            sh("git -C /repo apply %s" % patch)
         try:
             env = dict(os.environ, VERIF_EVIDENCE_DIR=os.path.join(VERIF, ".build", "evidence-seeded"), VERIF_FAILFAST="1")
             import time
@@ -142,7 +157,7 @@ def sweep(names):
                                stdout=subprocess.PIPE, stderr=subprocess.STDOUT, text=True)
             out = p.stdout
         finally:
-            sh("git -C /repo checkout -- . && git -C /repo clean -fdq -- pfcpiface conf cmd pkg internal")
+            sh("git -C /repo reset -q --hard HEAD && git -C /repo clean -fdq -- pfcpiface conf cmd pkg internal")
         msg = ""
         for pat in (r"common_test\.go:\d+: (C\d\d/[^\n]*)", r"\[check\] failure: (process died[^\n]*)", r"(C20 violation:[^\n]*)",
                     r"\[check\] failure: ([^\n]*)", r"\[check\] (INCONCLUSIVE[^\n]*)", r"\[check\] (BUILD[^\n]*)"):
@@ -153,6 +168,8 @@ def sweep(names):
         results[name] = {"property": prop, "repo_head": head.strip(), "exit": p.returncode,
                          "result": {0: "MISSED", 1: "caught"}.get(p.returncode, "inconclusive"),
                          "wall_s": round(time.time() - t0, 1), "first_failure": msg}
+        if ported:
+            results[name]["ported"] = "applied by three-way merge (the tree has moved on since the change was written)"
         print(name, results[name]["result"], results[name]["wall_s"], msg[:160], flush=True)
         json.dump(results, open(path, "w"), indent=1, sort_keys=True)
     json.dump(results, open(path, "w"), indent=1, sort_keys=True)
@@ -176,11 +193,13 @@ def table():
                 note = meta["verif"]["result"]
         except Exception:
             pass
+        if r.get("ported"):
+            note = "(three-way merged onto the current tree) " + note
         note = note.replace("|", "/")[:260]
         rows.append("| %s | %s | %s | %s |" % (name, r["property"], r["result"], note))
     n = {k: sum(1 for r in res.values() if r["result"] == k) for k in ("caught", "MISSED", "does-not-apply", "inconclusive")}
     head = "Last sweep at /repo %s: %d caught, %d missed, %d no longer applicable, %d inconclusive (build failure of the reverse patch).\n\n" % (
-        next(iter(res.values()))["repo_head"], n["caught"], n["MISSED"], n["does-not-apply"], n["inconclusive"])
+        max((r["repo_head"] for r in res.values()), key=lambda h: sum(1 for x in res.values() if x["repo_head"] == h)), n["caught"], n["MISSED"], n["does-not-apply"], n["inconclusive"])
     p = os.path.join(VERIF, "DESIGN.md")
     s = open(p).read()
     a, b = "<!-- sweep:begin -->", "<!-- sweep:end -->"
